@@ -497,10 +497,16 @@ impl Formatter {
                     DecoratorArg::Positional(expr) => self.format_expr(&expr.node),
                     DecoratorArg::Named(name, value) => {
                         self.writer.write(name);
-                        self.writer.write("=");
                         match value {
-                            DecoratorArgValue::Type(ty) => self.format_type(&ty.node),
-                            DecoratorArgValue::Expr(expr) => self.format_expr(&expr.node),
+                            // `@requires(name: str)` — a type argument is introduced by `:`, a value by `=`
+                            DecoratorArgValue::Type(ty) => {
+                                self.writer.write(": ");
+                                self.format_type(&ty.node)
+                            }
+                            DecoratorArgValue::Expr(expr) => {
+                                self.writer.write("=");
+                                self.format_expr(&expr.node)
+                            }
                         }
                     }
                 }
